@@ -72,6 +72,92 @@ theorem gate_closed_iff (snapAmt snapTime supply now : Int) (maxAnnual : Dec.D) 
 example : inflationMint 0 0 1000000 100 1000000 (100 + 2629800) 0 (Dec.P / 10) 2629800 = 100000 := by decide +kernel
 example : inflationPossible 1000000 0 1200000 86400 (Dec.P / 10) = false := by decide +kernel
 
+/-! ## the inflation schedule over blocks -/
+
+/-- **the stored supply snapshots are real**: each is the (block time, end-of-block supply) of a block the chain
+produced — never a back-dated or forward-dated time paired with a supply sampled at another moment -/
+def SnapReal (s : Infl) (log : List (Int × Int)) : Prop :=
+  (s.pTime = 0 ∨ (s.pTime, s.pAmt) ∈ log) ∧ (s.yTime = 0 ∨ (s.yTime, s.yAmt) ∈ log)
+
+theorem inflEnd_supply (c : InflCfg) (s : Infl) (now : Int) : (inflEnd c s now).supply = s.supply := by
+  unfold inflEnd; simp only; split <;> split <;> rfl
+
+theorem inflEnd_p (c : InflCfg) (s : Infl) (now : Int) :
+    ((inflEnd c s now).pTime = s.pTime ∧ (inflEnd c s now).pAmt = s.pAmt) ∨
+    ((inflEnd c s now).pTime = now ∧ (inflEnd c s now).pAmt = s.supply) := by
+  unfold inflEnd; simp only
+  split <;> split <;> simp
+
+theorem inflEnd_y (c : InflCfg) (s : Infl) (now : Int) :
+    ((inflEnd c s now).yTime = s.yTime ∧ (inflEnd c s now).yAmt = s.yAmt) ∨
+    ((inflEnd c s now).yTime = now ∧ (inflEnd c s now).yAmt = s.supply) := by
+  unfold inflEnd; simp only
+  split <;> split <;> simp
+
+theorem inflBegin_snap (c : InflCfg) (s : Infl) (now : Int) (f : Bool) :
+    (inflBegin c s now f).pTime = s.pTime ∧ (inflBegin c s now f).pAmt = s.pAmt ∧
+    (inflBegin c s now f).yTime = s.yTime ∧ (inflBegin c s now f).yAmt = s.yAmt := by
+  unfold inflBegin; split <;> simp
+
+theorem snapReal_block (c : InflCfg) (s : Infl) (log : List (Int × Int)) (now : Int) (f : Bool) (h : SnapReal s log) :
+    SnapReal (inflBlock c s now f) ((now, (inflBlock c s now f).supply) :: log) := by
+  unfold inflBlock
+  have hb := inflBegin_snap c s now f
+  have hsup := inflEnd_supply c (inflBegin c s now f) now
+  constructor
+  · rcases inflEnd_p c (inflBegin c s now f) now with ⟨h1, h2⟩ | ⟨h1, h2⟩
+    · rcases h.1 with h0 | hm
+      · left; rw [h1, hb.1]; exact h0
+      · right; rw [h1, h2, hb.1, hb.2.1]; exact List.mem_cons_of_mem _ hm
+    · right; rw [h1, h2, hsup]; exact List.mem_cons_self ..
+  · rcases inflEnd_y c (inflBegin c s now f) now with ⟨h1, h2⟩ | ⟨h1, h2⟩
+    · rcases h.2 with h0 | hm
+      · left; rw [h1, hb.2.2.1]; exact h0
+      · right; rw [h1, h2, hb.2.2.1, hb.2.2.2]; exact List.mem_cons_of_mem _ hm
+    · right; rw [h1, h2, hsup]; exact List.mem_cons_self ..
+
+/-- over every chain of blocks -/
+theorem snapshots_real (c : InflCfg) (times : List Int) (s : Infl) (log : List (Int × Int)) (h : SnapReal s log) :
+    SnapReal (inflRun c s log times).1 (inflRun c s log times).2 := by
+  induction times generalizing s log with
+  | nil => exact h
+  | cons now rest ih =>
+    simp only [inflRun]
+    exact ih _ _ (snapReal_block c s log now false h)
+
+/-- **one block's inflation never lifts supply above the stored period snapshot grown pro rata** -/
+theorem block_supply_bound (c : InflCfg) (s : Infl) (now : Int)
+    (hs : 0 ≤ s.pAmt) (hr : 0 ≤ c.rate) (ht : s.pTime ≤ now) (hp : 0 < c.period) :
+    (inflBegin c s now false).supply ≤
+      max s.supply (s.pAmt + (s.pAmt * c.rate * (now - s.pTime)) / (c.period * Dec.P) + 1) := by
+  unfold inflBegin
+  simp only [Bool.false_eq_true, if_false]
+  exact inflation_bound s.yAmt s.yTime s.pAmt s.pTime s.supply now c.maxAnnual c.rate c.period hs hr ht hp
+
+/-- **… and that snapshot is the supply the chain really had at the end of an earlier block**: after any chain of
+blocks, the next block's inflation leaves supply at most at the supply of some earlier block end `(t, a)` grown pro
+rata over the time since `t` (or no period snapshot exists yet) -/
+theorem supply_le_real_snapshot_grown (c : InflCfg) (times : List Int) (s0 : Infl) (now : Int)
+    (hr : 0 ≤ c.rate) (hp : 0 < c.period)
+    (hs : let s := (inflRun c s0 [] times).1; 0 ≤ s.pAmt ∧ s.pTime ≤ now)
+    (h0 : s0.pTime = 0 ∧ s0.yTime = 0) :
+    let s := (inflRun c s0 [] times).1
+    let log := (inflRun c s0 [] times).2
+    s.pTime = 0 ∨ ∃ ta ∈ log, (inflBegin c s now false).supply ≤
+      max s.supply (ta.2 + (ta.2 * c.rate * (now - ta.1)) / (c.period * Dec.P) + 1) := by
+  intro s log
+  have hreal := snapshots_real c times s0 [] ⟨Or.inl h0.1, Or.inl h0.2⟩
+  rcases hreal.1 with hz | hm
+  · exact Or.inl hz
+  · exact Or.inr ⟨(s.pTime, s.pAmt), hm, block_supply_bound c s now hs.1 hr hs.2 hp⟩
+
+/-- non-vacuity: two months of daily blocks from a 1 000 000 supply at 10 % per period: the period snapshot is
+re-taken twice (day 32, day 63), each time with that block's own time -/
+example :
+    let r := inflRun ⟨Dec.P, Dec.P / 10, 2629800⟩ ⟨1000000, 0, 0, 0, 0⟩ [] ((List.range 70).map (fun (i : Nat) => (1700000000 : Int) + 86400 * ((i : Int) + 1)))
+    (r.1.pTime, decide ((r.1.pTime, r.1.pAmt) ∈ r.2), decide (r.1.supply > 1000000)) = (1700000000 + 86400 * 63, true, true) := by
+  decide +kernel
+
 /-! ## UBI hard cap (uint64) -/
 
 def exactTerm (ys amount period : Nat) : Nat := amount * ys / period
